@@ -1,11 +1,13 @@
 //! vh_lut — C22 (LUT outputs) and C19 (lossless transcoding) on dicom-pixeldata.
 mod util;
+mod c19;
 mod c22;
 use vhc::*;
 
 fn main() {
     run_main(
         |prop, ctx| match prop {
+            "C19" => Some(c19::cases(ctx)),
             "C22" => Some(c22::cases(ctx)),
             _ => None,
         },
